@@ -242,6 +242,41 @@ harness! {
 }
 
 harness! {
+    /// kind=bounded tier=quick bound="valid UTF-8 string<=5 bytes; f <= 2 front steps and b <= 1 back steps on CharIndices, then `copy()`, `rev()` and `rev().rev()`: the duplicate / the reversed iterator yields the same (index, char) as core::str::CharIndices advanced the same way (the offset survives copy and rev)"
+    #[kani::unwind(8)]
+    fn c07_char_indices_copy_rev_after_steps(s) {
+        let bs = BStr::<5>::any(s);
+        let h = bs.as_str();
+        let f = s.upto(2);
+        let b = s.upto(1);
+        let mut k = konst::string::char_indices(h);
+        let mut st = h.char_indices();
+        let mut j = 0;
+        while j < 2 {
+            if j < f {
+                if let Some((_, nk)) = k.copy().next() { k = nk; }
+                let _ = st.next();
+            }
+            j += 1;
+        }
+        if b == 1 {
+            if let Some((_, nk)) = k.copy().next_back() { k = nk; }
+            let _ = st.next_back();
+        }
+        let ef = st.clone().next();
+        let eb = st.clone().next_back();
+        chk!(s, k.copy().next().map(|(x, _)| x) == ef, "C07.char_indices.copy_after_steps.next_eq_std");
+        chk!(s, k.copy().next_back().map(|(x, _)| x) == eb, "C07.char_indices.copy_after_steps.next_back_eq_std");
+        chk!(s, k.copy().rev().next().map(|(x, _)| x) == eb, "C07.char_indices.rev_after_steps.next_eq_std_next_back");
+        chk!(s, k.copy().rev().next_back().map(|(x, _)| x) == ef, "C07.char_indices.rev_after_steps.next_back_eq_std_next");
+        chk!(s, k.copy().rev().copy().next().map(|(x, _)| x) == eb, "C07.rchar_indices.copy_after_steps.next_eq_std_next_back");
+        chk!(s, k.copy().rev().rev().next().map(|(x, _)| x) == ef, "C07.char_indices.rev_rev_after_steps.next_eq_std");
+        chk!(s, same_str(k.copy().rev().rev().as_str(), st.as_str()), "C07.char_indices.rev_rev_after_steps.as_str_eq_std");
+        cov!(s, f == 2 && b == 1 && ef.is_some(), "C07.cover.copy_rev_after_three_steps_nonempty");
+    }
+}
+
+harness! {
     /// kind=bounded tier=thorough bound="valid UTF-8 string<=8 bytes, every front/back history of 6 steps of Chars from the fresh iterator"
     #[kani::unwind(10)]
     fn c07_chars_steps_big(s) { body_chars::<_, 8, 6>(s) }
